@@ -79,7 +79,10 @@ def gen_cases(ctx):
 
 
 def run(ctx):
-    if not srv.prepare(ctx):
+    if not srv.prepare(ctx, ['ReaderLoop.v']):
+        return
+    if ctx.replay and 'stream_cases' in ctx.replay:
+        srv.replay_streams(ctx)
         return
     if ctx.replay and 'cases' in ctx.replay:
         cases = [srv.case_from_json(c) for c in ctx.replay['cases']]
@@ -112,6 +115,14 @@ def run(ctx):
                 noisy.append((srv.to_line(c)[:200], 'no reply to ' + bytes(f[2]).hex()))
         st['broadcast-write-calls'] += sum(1 for e in srv.split3(i)[1] if e[:2] in ('ws', 'wm')) if any(c[0] == 'rtu' and f[1] == 0 for f in c[3]) else 0
     ctx.oblige('silent-unless-addressed-and-every-addressed-request-answered', not noisy, f'{len(noisy)}: {noisy[:2]}')
+    if not ctx.replay:
+        r = ctx.rng
+        n = 300 if ctx.quick() else 3000
+        ro = [srv.gen_reopen_case(r) for _ in range(n)]
+        srv.stream_pass(ctx, ro, 'all', 'correspondence:rtu-port-reopen:replies-and-unit-logs', 'multidrop.rtu-reopen', reopen=True)
+        st['rtu-reopen-runs'] = n
+        st['rtu-reopen-runs:with-crc-error'] = sum(1 for c, s in ro if len([x for x in s if not x.startswith('@')]) > len(c[3]))
+        st['rtu-reopen-runs:frames-to-unserved-units'] = sum(1 for c, _ in ro for f in c[3] if f[1] not in [u[0] for u in c[1]])
     cl = srv.coverage(ctx, cases, impl,
                       'for every destination byte 0..255 on RTU (twice) and TCP: a session of the 8 request kinds (valid / failing in the handler through per-address '
                       'exception maps / malformed) against a unit map of 0-3 units plus a sentinel request to a configured unit; then mixed RTU sessions; '
